@@ -7,6 +7,19 @@ HERE = os.path.dirname(os.path.dirname(os.path.abspath(__file__)))
 
 # id -> (category, technique, text, note, design_ref)
 CHECKS = {
+    "C20": (
+        "exploration",
+        "bounded exhaustive enumeration of (adapter set, times, action, revcomp, cores) through cli.main: JSON statistics vs. a tally of the applied matches; exhaustive (length, rate) enumeration for the allowed-error ranges",
+        "A: 9 adapter sets (3', 5', anywhere, anchored, two linked adapters, mixed) x --times {1,2,3} x {trim,none,lowercase} x --revcomp "
+        "on/off: the JSON per-adapter figures (matches per end, removed-length x error histogram, adjacent bases, 5'/3' split, matches on "
+        "the reverse complement, total) must equal a tally of the info-file rows of the same run; 9 scenarios are repeated with 2 cores "
+        "under the virtual scheduler for every schedule with <= 1 deviation (statistics merged across workers). B: paired-end "
+        "adapters_read1 / adapters_read2 vs. single-end runs on each file; --pair-adapters statistics vs. the matches recorded per pair "
+        "at the modifier seam. C: the 'allowed errors' ranges for every effective length 1-60 x ~750 rates (every i/100 and every k/L, "
+        "L <= 40) must state exactly int(L x rate) for every L, also through the JSON and the text report for adapters with N wildcards.",
+        "Trusted: the info file (C17) as the list of applied matches; scenarios use no pre-adapter modification.",
+        "DESIGN.md section 3, C20",
+    ),
     "C17": (
         "exploration",
         "bounded exhaustive enumeration of (pre-adapter modification set, adapter set, times, revcomp, filter) through cli.main; every info-file row re-checked, matched stretch re-aligned by the C reference",
